@@ -824,6 +824,7 @@ def common_setup(ck):
               "which sites a public construction evaluates is not modelled (no call graph): the theorems quantify over all builds, the harness feeds the observed trace",
               "static site discovery resolves calls by name through imports / classes / self; dynamic dispatch is covered by the run-time comparison only for the exercised paths",
               "draws of third-party libraries (cryptography: RSA/ECC key generation, signature nonces, x509 serial numbers) are out of scope")
+    ck.trusted.append("C17 worker: replacement of secrets.* / os.urandom before spsdk is imported and call-stack inspection (frame kinds) at every draw")
     tab = parse_table(drv.ask("table")) if drv is not None else []
     ck.extra["site_table"] = {"sites": len(tab), "early": [t for t in tab if t["ev"] != "perCall"]}
     scratch = os.path.join(os.environ.get("VERIF_SCRATCH", "/tmp"), "c17")
@@ -851,9 +852,15 @@ def run(ck):
             return
         ck.extra["draws_before_any_import_all"] = w.init.get("draws_so_far")
         stream_import(ck, drv, tab, w)
-        n = ck.budget(300, 6000)
+        n = ck.budget(300, 10000)
         s = ck.stream("histories", f"{n} " + HIST_RULE)
         hists = [gen_history(ck.rng) for _ in range(n)]
+        kinds = {}
+        for h in hists:
+            for b in h:
+                key = b["t"] + ("/supplied" if b["sup"] else "/self-chosen")
+                kinds[key] = kinds.get(key, 0) + 1
+        ck.extra["constructions_by_type"] = dict(sorted(kinds.items()))
         hits, opaque = run_histories(ck, s, drv, tab, w, hists)
         ck.extra["sites_exercised"] = {t["loc"] + ("<" + t["via"] if t["via"] else ""): hits.get(t["i"], 0) for t in tab
                                        if t["kind"] in ("sb1", "sb2", "mbi", "otfad", "iee", "bee", "hab", "filler")}
